@@ -800,6 +800,16 @@ def misc_cases(ck, sc):
                          {"op": "misc", "probe": "empty-files-" + nm})
 
 
+def speed_up_gc():
+    """collect() and align() call gc.collect() per call / per evicted secondary, which costs
+    ~0.1 s with numpy/xarray/pandas loaded: park the objects that exist now in the permanent
+    generation (no effect on semantics)"""
+    import gc
+    import typhon.files  # noqa
+    gc.collect()
+    gc.freeze()
+
+
 # ------------------------------------------------------------------ running batches
 def run_batch(ck, sc, cases, use_model):
     pool_cases = [c for c in cases if c.get("op") == "pool"]
@@ -872,12 +882,13 @@ def main():
     use_model = os.path.exists(os.path.join(ck.pkgdir, ".lake/build/bin/drv_c10"))
     scratch = tempfile.mkdtemp(prefix="verif_c10_")
     sc = Scratch(scratch)
+    speed_up_gc()
     try:
         corpus = [c for _, c in vlib.load_corpus(PROP)]
         run_batch(ck, sc, [c for c in corpus if c.get("op") in ("pool", "align")], use_model)
         misc_cases(ck, sc)
         nmax = 4 if ck.tier == "quick" else 6
-        explore(ck, sc, use_model, ck.budget(250, 4000), ck.budget(80, 1500), ck.budget(6, 60), nmax)
+        explore(ck, sc, use_model, ck.budget(700, 6000), ck.budget(250, 3000), ck.budget(16, 120), nmax)
         ck.exhaustive = True
         ck.notes.append(f"exhaustive: all completion-order permutations for n<={nmax} tasks x max_workers 1..4 x imap/map (thread pools)")
         if ck.broken() and not ck.violations and ck.tier == "quick":
